@@ -443,11 +443,31 @@ func (k *checker) slices() {
 	keysG := func(m map[int]int) []int { return sorted(fpgo.Keys(m)) }
 	keysI := func(m map[interface{}]int) []int { return sorted(fromI(fpgo.KeysForInterface(m))) }
 	mA, mB, iA, iB := mk(A), mk(B), mki(A), mki(B)
-	g, i = both("IntersectionMapByKey", true, func() []int { return keysG(fpgo.IntersectionMapByKey(mA, mB)) }, func() []int { return keysI(fpgo.IntersectionMapByKeyForInterface(iA, iB)) })
-	if nonEmpty(A, B) {
-		want := sorted(refIntersect(A, B))
-		for _, f := range fams(g, i) {
-			k.law("IntersectionMapByKey", f.n, !f.a.panicked && eqInts(f.a.seq, want), "IntersectionMapByKey(keys %v, keys %v) has keys %v, want %v", A, B, f.a, want)
+	// IntersectionMapByKey is variadic: two or three operands (C), in every order of the operands - the
+	// key set of an intersection does not depend on the order
+	{
+		ops := [][]int{A, B}
+		if c.UseC {
+			ops = append(ops, C)
+		}
+		orders := [][]int{{0, 1}, {1, 0}}
+		if len(ops) == 3 {
+			orders = [][]int{{0, 1, 2}, {0, 2, 1}, {1, 0, 2}, {1, 2, 0}, {2, 0, 1}, {2, 1, 0}}
+		}
+		for _, ord := range orders {
+			var gs []map[int]int
+			var is []map[interface{}]int
+			var shown [][]int
+			for _, o := range ord {
+				gs, is, shown = append(gs, mk(ops[o])), append(is, mki(ops[o])), append(shown, ops[o])
+			}
+			g, i = both("IntersectionMapByKey", true, func() []int { return keysG(fpgo.IntersectionMapByKey(gs...)) }, func() []int { return keysI(fpgo.IntersectionMapByKeyForInterface(is...)) })
+			if nonEmpty(ops...) {
+				want := sorted(refIntersect(ops[0], ops[1:]...))
+				for _, f := range fams(g, i) {
+					k.law("IntersectionMapByKey", f.n, !f.a.panicked && eqInts(f.a.seq, want), "IntersectionMapByKey(maps with the keys %v) has keys %v, want %v", shown, f.a, want)
+				}
+			}
 		}
 	}
 	g, i = both("Merge", true, func() []int { return keysG(fpgo.Merge(mA, mB)) }, func() []int { return keysI(fpgo.MergeForInterface(iA, iB)) })
